@@ -22,10 +22,10 @@ RULE = (
     "all masks for n<=4 (incl. all-free and single-free) x methods {slsqp, l-bfgs-b, nelder-mead, powell, cobyla, DE "
     "serial, DE vectorized, scripted request sequences} x start vector given by the configuration or by run_step(variables=) "
     "(exhaustive over masks x methods x start mode with fixed problem data), plus Hypothesis over initial values, bounds, "
-    "1-3 samplers assigned to arbitrary (also fixed) variables, VariableScaler, several realizations, and nested plans "
+    "1-3 samplers assigned to arbitrary (also fixed) variables, the mask given as list / tuple / bool or int ndarray, VariableScaler, several realizations, and nested plans "
     "whose inner optimization owns the complementary mask. Oracle (trace predicate): in every evaluator row, every "
     "reported variables / perturbed_variables and every vector exchanged with SciPy, fixed entries equal the start value "
-    "(nested: the value of the inner result last delivered / the value requested by the outer optimizer), fixed gradient "
+    "(nested: the value of the inner result last delivered - also as the start of the next inner run - / the value requested by the outer optimizer), fixed gradient "
     "entries are exactly 0.0, SciPy sees vectors of the free length only. "
     "Non-trivial: >=1 fixed and >=1 free variable and (>=1 gradient or >=3 function evaluations)."
 )
@@ -58,7 +58,9 @@ def make_cfg(case: dict[str, Any], mask: list[bool] | None, method: str) -> dict
     if method == "cobyla":
         cfg["variables"].pop("lower_bounds"); cfg["variables"].pop("upper_bounds")  # noqa: E702
     if mask is not None:
-        cfg["variables"]["mask"] = mask
+        kind = case.get("mask_kind", "list")
+        cfg["variables"]["mask"] = {"list": mask, "int-list": [int(m) for m in mask], "bool-array": np.array(mask, dtype=bool),
+                                    "int-array": np.array(mask, dtype=np.int64), "tuple": tuple(mask)}[kind]
     if case["assign"] is not None:
         cfg["gradient"]["samplers"] = case["assign"]
     if case.get("ptypes") is not None:
@@ -124,6 +126,9 @@ def run_case(case: dict[str, Any]) -> dict[str, Any]:  # noqa: C901, PLR0912, PL
 
         def inner_fn(plan: Plan, variables: np.ndarray) -> FunctionResults | None:
             user = variables if transforms is None else transforms.variables.from_optimizer(variables)
+            check(close_fixed(np.asarray(user)[~free], state["outer_fixed"][~free], scaled), "nested-start-stale",
+                  f"nested run {state['inner_runs']}: started with {np.asarray(user)[~free].tolist()} for the variables the outer "
+                  f"optimizer does not own, the value last delivered is {state['outer_fixed'][~free].tolist()}", case)
             state["inner_fixed"] = np.array(user, dtype=np.float64)
             state["inner_runs"] += 1
             plan.set(inner_tracker, "results", None)
@@ -211,6 +216,7 @@ def exhaustive_shard(item: dict[str, Any]) -> Collector:
             for start_mode, nested in variants:
                 case = default_case(n, None if all(mask) and item["none_for_all"] else list(mask), method, start_mode)
                 case["nested"] = nested
+                case["mask_kind"] = ("list", "int-array", "bool-array", "int-list", "tuple")[(sum(mask) + len(method) + nested) % 5]
                 case["budget"] = 3 if nested else 5
                 info: dict[str, Any] = {}
 
@@ -263,6 +269,7 @@ def hypothesis_shard(item: dict[str, Any]) -> Collector:
                 case["unbounded"] = [v]
                 case["ptypes"] = [2 if (i == v or draw(st.booleans())) else 1 for i in range(n)]
             case["nested"] = False
+        case["mask_kind"] = draw(st.sampled_from(["list", "int-array", "bool-array", "int-list", "tuple"]))
         case["script"] = [[draw(st.sampled_from(["f", "g"])), draw(st.integers(0, 2))] for _ in range(draw(st.integers(1, 8)))]
         case["script_points"] = [draw(st.sampled_from([-0.5, 0.0, 0.3, 0.8, 1.2])) for _ in range(3 * n)]
         return case
@@ -275,7 +282,7 @@ def hypothesis_shard(item: dict[str, Any]) -> Collector:
                  classes=(f"method={case['method']}", "rejected-config" if info.get("rejected") else "accepted-config",
                           "relative-perturbations" if case.get("ptypes") and 2 in case["ptypes"] else "absolute-perturbations", "nested" if info["nested_runs"] else "flat",
                           "scaled" if case["vscale"] else "unscaled", f"samplers={len(case['samplers'])}",
-                          "start=argument" if case["start"] is not None else "start=config", f"fixed={fixed}"))
+                          "start=argument" if case["start"] is not None else "start=config", f"fixed={fixed}", f"mask-as-{case['mask_kind']}"))
 
     run_hypothesis(col, cases(), body, seed=item["seed"], max_examples=item["examples"])
     return col
